@@ -159,7 +159,8 @@ class CCodeMapper(LokiStringifyMapper):
             if any(var.type.dtype != BasicType.INTEGER for var in FindVariables().visit(expr.parameters)) or\
                     FindRealLiterals().visit(expr.parameters):
                 return f'fmod({parameters[0]}, {parameters[1]})'
-            return f'({parameters[0]})%({parameters[1]})'
+            # ``%`` binds like ``*`` and ``/``: keep the call a primary expression
+            return f'(({parameters[0]})%({parameters[1]}))'
 
         if expr.function.name.lower() == 'present':
             return self.format('true /*ATTENTION: present({%s})*/', expr.parameters[0].name)
